@@ -97,7 +97,11 @@ func Keys(t *rapid.T, maxKeys int, label string) []string {
 		}
 	}
 	if maxKeys > 0 {
-		rec(nil, 0)
+		var root []byte
+		if Chance(t, 1, 12, label+".longroot") { // very deep common prefix (> 128 bytes)
+			root = BytesN(t, 120+Uniform(t, 200, label+".rootlen"), label+".root")
+		}
+		rec(root, 0)
 		if rapid.IntRange(0, 3).Draw(t, label+".second") == 0 {
 			rec(nil, 0)
 		}
